@@ -362,6 +362,15 @@ Qed.
 
 End Tok.
 
+(* text level, given that the stripped text parses back to the token-level rendering *)
+Lemma resolves_text ct ns mods t :
+  binds_base ns -> binds_cls_l ct ns (tcls t) -> ok t = true ->
+  parse_anno (strip_mods mods (ra ct t)) = Some (rast ct t) ->
+  eval_text ct ns (strip_mods mods (ra ct t)) = Some (evt t).
+Proof.
+  intros Hb Hc Hok Hp. unfold eval_text. rewrite Hp. exact (resolves ct ns Hb t Hc Hok).
+Qed.
+
 (* ---- evaluation returns the type itself when it has no union ---- *)
 Fixpoint union_free (t : ty) : bool :=
   match t with
